@@ -315,66 +315,134 @@ def mon_c13(script, res):
 
 
 def mon_c03(script, res):
-    """Start-success decision and retry/fatal bookkeeping, with clock readings from the pass markers."""
+    """Reference policy monitor (independent of the Coq model): start-success decision, explained forks,
+    retry count/spacing, FATAL, autorestart table, autostart once.  Clock readings from the pass markers."""
+    prev_state.clear(); ever_started_before.clear(); pend_es.clear()
     n = len(script['procs'])
     U = script['U']
-    now = 0
+    now = None
     cur = [0] * n
-    started_at = [None] * n     # reading of the fork, lowered by any smaller reading seen while STARTING
+    started_at = [None] * n       # reading of the fork, lowered by any smaller reading seen while STARTING
+    ever_started = [False] * n
     owner = {}
-    tries = [0] * n
+    pend = [False] * n            # the child of process i has been waited for; its finish() notifications follow
+    last_es = [None] * n
+    backoff_since = [None] * n    # (reading of the BACKOFF notification lowered by smaller readings, tries)
+    due_restart = [None] * n      # pass index by which an automatic restart must have happened
     down = False
+    rpc_window = None             # kind of the request being executed
+    passno = -1
+    mood_low = False
     for e in res['trace']:
         k = e[0]
         if k == 'pass':
+            passno = e[1]
             now = e[2]
+            rpc_window = None
             for i in range(n):
                 if cur[i] == 10 and started_at[i] is not None and now < started_at[i]:
                     started_at[i] = now
+                if cur[i] == 30 and backoff_since[i] is not None and now < backoff_since[i][0]:
+                    backoff_since[i] = (now, backoff_since[i][1])
+                if due_restart[i] is not None and passno > due_restart[i] and cur[i] == 100 and not mood_low:
+                    return 'p%d exited with status %s, policy demands an automatic restart, but it was still EXITED after a full pass' % (i, last_es[i])
+        elif k == 'req':
+            rpc_window = e[2]
+        elif k == 'endacts':
+            rpc_window = None
         elif k == 'sup' and e[1] == 2:
             down = True
+            mood_low = True
+        elif k == 'ans' and rpc_window in ('shutdown', 'restart') and e[2] == 0:
+            mood_low = True
         elif k == 'fork':
+            i = e[1]
             if down:
-                return 'child forked for p%d while the daemon is shutting down' % e[1]
-            owner[e[2]] = e[1]
-            if 0 <= e[1] < n:
-                started_at[e[1]] = now
+                return 'child forked for p%d while the daemon is shutting down' % i
+            owner[e[2]] = i
+            if not (0 <= i < n):
+                continue
+            c = script['procs'][i]
+            explained = rpc_window in ('start', 'startall', 'startgroup')
+            prev = prev_state[i] if i in prev_state else 0
+            if not explained:
+                if prev == 0:
+                    explained = (not ever_started_before[i]) and bool(c['autostart'])
+                    why = 'a STOPPED process that %s' % ('was started before' if ever_started_before[i] else 'has autostart=false')
+                elif prev == 100:
+                    es = last_es[i]
+                    explained = c['autorestart'] == 2 or (c['autorestart'] == 1 and es not in c['exitcodes'])
+                    why = 'an EXITED process (status %s) whose policy forbids a restart' % (es,)
+                elif prev == 30:
+                    explained = True
+                    bs = backoff_since[i]
+                    if bs is not None:
+                        if bs[1] > c['startretries']:
+                            return 'p%d retried although %d start attempts already failed (startretries=%d)' % (i, bs[1], c['startretries'])
+                        if not (now > bs[0] + bs[1] * U):
+                            return 'p%d retry number %d at reading %s, not later than %s seconds after the failure at %s' % (i, bs[1], now, bs[1], bs[0])
+                    why = ''
+                else:
+                    why = 'a process in state %s' % prev
+                if not explained:
+                    return 'p%d: child forked without cause for %s' % (i, why)
+            started_at[i] = now
+        elif k == 'spawnfail':
+            pass
         elif k == 'state' and 0 <= e[1] < n:
             i, frm, to = e[1], e[2], e[3]
             c = script['procs'][i]
-            if frm == 10 and to == 30 and started_at[i] is not None and pend_exit.get(i):
+            if to == 10:
+                prev_state[i] = frm
+                ever_started_before[i] = ever_started[i]
+                ever_started[i] = True
+                if started_at[i] is None:
+                    started_at[i] = now
+                started_at[i] = now
+                due_restart[i] = None
+            if frm == 10 and to == 30 and pend[i]:
                 life = now - started_at[i]
                 if not (life < c['startsecs'] * U):
                     return 'p%d lived %s ticks >= startsecs but the exit was handled as a failed start (BACKOFF)' % (i, life)
-            if frm == 10 and to == 20 and pend_exit.get(i):
-                # finish() decided the start had succeeded
-                life = now - started_at[i] if started_at[i] is not None else 0
+            if frm == 10 and to == 20 and pend[i]:
+                life = now - started_at[i]
                 if life < c['startsecs'] * U:
                     if life <= 0 and c['startsecs'] > 0:
                         _known('C03-no-positive-lifetime')
                     else:
                         return 'p%d exited after %s ticks < startsecs but the start was treated as successful' % (i, life)
-            if frm == 10 and to == 20 and not pend_exit.get(i):
-                life = now - started_at[i] if started_at[i] is not None else 0
+            if frm == 10 and to == 20 and not pend[i]:
+                life = now - started_at[i]
                 if not (life > c['startsecs'] * U):
                     return 'p%d reported RUNNING after %s ticks, not longer than startsecs' % (i, life)
             if to == 30:
-                tries[i] = e[4]
-                if tries[i] > c['startretries'] + 1 + 0 and False:
-                    return 'too many retries'
+                backoff_since[i] = (now, e[4])
             if to == 200 and frm == 30:
-                pass
-            if to in (20, 0, 200):
-                pass
+                bs = backoff_since[i]
+                if bs is not None and bs[1] <= c['startretries'] and not down and not mood_low:
+                    return 'p%d became FATAL after %d failed attempts although startretries=%d' % (i, bs[1], c['startretries'])
+            if to == 100:
+                last_es[i] = pend_es.get(i)
+                es = last_es[i]
+                want = c['autorestart'] == 2 or (c['autorestart'] == 1 and es not in c['exitcodes'])
+                due_restart[i] = passno + 1 if want else None
+                if bool(e[5]) != (es in c['exitcodes']):
+                    return 'p%d exit status %s reported expected=%s, exitcodes=%s' % (i, es, e[5], c['exitcodes'])
             cur[i] = to
-            pend_exit[i] = pend_exit.get(i) if (frm == 10 and to == 20) else False
+            if not (frm == 10 and to == 20):
+                pend[i] = False
         elif k == 'wait':
             i = owner.get(e[1])
-            if i is not None:
-                pend_exit[i] = True
+            if i is not None and 0 <= i < n:
+                pend[i] = True
+                sts = e[2]
+                pend_es[i] = ((sts >> 8) & 0xff) if (sts & 0x7f) == 0 else -1
     return None
 
 
+prev_state = {}
+ever_started_before = {}
+pend_es = {}
 pend_exit = {}
 
 
@@ -533,7 +601,7 @@ def hostile_stream(chk, wd):
         d = os.path.join(wd, 'h%d' % k)
         os.makedirs(d)
         s = hostile_script(chk.rng, d)
-        pend_exit.clear()
+        pend_exit.clear(); prev_state.clear(); ever_started_before.clear(); pend_es.clear()
         r = life_driver.run_script(s)
         shutil.rmtree(d, ignore_errors=True)
         chk.dist('hostile:' + str(r['ended']))
@@ -591,7 +659,7 @@ def _run(chk, which, prop_rel, proved, wd):
     mons = [MONITORS[m] for m in ('C01', 'C02', 'C03', 'C04', 'C05', 'C06', 'C13')]   # every run is judged by all of them
     KNOWN.clear()
     for (s, origin) in scripts:
-        pend_exit.clear()
+        pend_exit.clear(); prev_state.clear(); ever_started_before.clear(); pend_es.clear()
         r = life_driver.run_script(s)
         chk.dist('origin:' + origin)
         chk.dist('ended:' + str(r['ended']))
